@@ -46,7 +46,7 @@ CLAIMS = {
             'for an injective Hessian. Both halves are joined for whole graphs (proofs/C04_whole.v): for every graph over one point per vertex with R^2/R^3 '
             'odometry and landmark edges, the GraphModel records built from what the regenerated programs return at the state moved by dx (through the code\'s '
             'boxplus) are entry-wise the shifted records, so from ANY start ANY solution dx of the normal equations leads to a state with zero assembled '
-            'gradient and the same Hessian (C04_one_step_Rn; premises met by a concrete graph). That optimize() reaches it in doubles from starts 1e6 away and reports its chi2 is checked by the oracle '
+            'gradient and the same Hessian (C04_one_step_Rn; premises met by a concrete graph; C04_one_step_Rn_assembled for the system produced by the assembly algorithm). That optimize() reaches it in doubles from starts 1e6 away and reports its chi2 is checked by the oracle '
             '(independent numpy lstsq).',
             AX + 'hand-written model lib/GraphModel.v (dictionaries in insertion order, slice writes as pointwise block writes) validated on every run by an EXACT integer correspondence against graph.py; spsolve is not modelled (theorems quantify over every increment / every solution of H dx = -b); lil_matrix, dict order and set membership are modelled, not verified.' + TR,
             'Coq proof (Gauss-Newton algebra over GNSpec: flat-to-block sums, symmetry of Omega) + exact integer correspondence + lstsq oracle'),
@@ -87,7 +87,8 @@ CLAIMS = {
             'entries inside the matrix bounds, the GraphModel records built from what the regenerated SE(3)/SE(2) odometry and landmark programs return at '
             'the transformed poses are entry-wise the re-based records, so for every such graph, every fixed set, every T and every solution d of the normal '
             'equations P d solves those of the transformed graph (C07_graph_SE3_descr, C07_graph_SE2_descr; premises met by a concrete 3-vertex graph); R^n graphs '
-            'under a translation have literally equal records (C07_graph_Rn). Not formalised: that one vertex carries one pose in all its edges (not needed '
+            'under a translation have literally equal records (C07_graph_Rn); the SE(3) statement is also given for the system the assembly algorithm of the graph model '
+            'produces (C07_graph_SE3_assembled, proofs/Assembled.v, through assembly_correct of C03; the transformed description is shown well-formed). Not formalised: that one vertex carries one pose in all its edges (not needed '
             'edge-wise), custom edges; solution uniqueness is a hypothesis of the trajectory theorem; the '
             'metamorphic oracle (transforms up to 1e7, iteration counts compared) and the reduced optimizer-loop correspondence cover the composition.',
             AX + TR + 'Over exact reals; floating-point agreement of trajectories is tested by the oracle with magnitude-aware tolerances.',
